@@ -635,6 +635,8 @@ HEADLINE = ["/healthcheck", "/health_v2/init", "/healthz/init", "/health/init", 
 
 
 def run(ctx: Any) -> None:
+    pa.set_cpu_count(1)
+    pa.set_io_thread_count(1)
     _SEEN_KEYS.clear()
     cfgs = corpus_cfgs()
     # the §7.1 observation first: method names that merely start with the health endpoint's name
@@ -644,11 +646,11 @@ def run(ctx: Any) -> None:
             p = cfg["pfx"] + rel
             body, bf = body_for(h, cfg, p)
             check_request(ctx, cfg, h, "POST", p, "bad", body, {"body_for": bf})
-    n_rand = ctx.budget(5, 60)
+    n_rand = ctx.budget(5, 40)
     for _ in range(n_rand):
         cfgs.append(random_cfg(ctx.rng))
     full = ctx.tier == "thorough" or ctx.deep
-    n_mut = ctx.budget(25, 150)
+    n_mut = ctx.budget(25, 100)
     for i, cfg in enumerate(cfgs):
         run_cfg(ctx, cfg, n_mut, full)
         if ctx.deep and ctx.tier != "thorough" and len(ctx.failures) >= 8 and i >= 3:
